@@ -1531,8 +1531,8 @@ class OP4:
             dt = float if multiplier == 1 else complex
             for c in cols_with_data:
                 pv = (cs == c).nonzero()[0]  # find data for column c
-                s = rs[pv[0]]  # first row with value
-                e = rs[pv[-1]]  # last row with value
+                s = int(rs[pv[0]])  # first row with value
+                e = int(rs[pv[-1]])  # last row with value
                 elems = e - s + 1
                 vec = np.zeros(elems, dt)
                 vec[rs[pv] - s] = vs[pv]
